@@ -3,8 +3,11 @@
 
 pub use std::io;
 
+// Every module below is a superset of its namesake in std: what is not replaced is re-exported,
+// so that code importing further items through a hooked `use` line still compiles.
+
 pub mod time {
-    pub use std::time::{Duration, UNIX_EPOCH};
+    pub use std::time::*;
 
     /// `SystemTime::now()` reads the simulated wall clock and returns a real `std::time::SystemTime`.
     pub struct SystemTime;
@@ -35,6 +38,43 @@ pub mod time {
         pub fn duration_since(&self, earlier: Instant) -> Duration {
             Duration::from_nanos(self.0.saturating_sub(earlier.0))
         }
+        pub fn saturating_duration_since(&self, earlier: Instant) -> Duration {
+            self.duration_since(earlier)
+        }
+        pub fn checked_duration_since(&self, earlier: Instant) -> Option<Duration> {
+            self.0.checked_sub(earlier.0).map(Duration::from_nanos)
+        }
+        pub fn checked_add(&self, d: Duration) -> Option<Instant> {
+            u64::try_from(d.as_nanos()).ok().and_then(|n| self.0.checked_add(n)).map(Instant)
+        }
+        pub fn checked_sub(&self, d: Duration) -> Option<Instant> {
+            u64::try_from(d.as_nanos()).ok().and_then(|n| self.0.checked_sub(n)).map(Instant)
+        }
+    }
+
+    impl std::ops::Sub<Duration> for Instant {
+        type Output = Instant;
+        fn sub(self, d: Duration) -> Instant {
+            Instant(self.0.saturating_sub(d.as_nanos().min(u64::MAX as u128) as u64))
+        }
+    }
+
+    impl std::ops::AddAssign<Duration> for Instant {
+        fn add_assign(&mut self, d: Duration) {
+            *self = *self + d;
+        }
+    }
+
+    impl std::ops::SubAssign<Duration> for Instant {
+        fn sub_assign(&mut self, d: Duration) {
+            *self = *self - d;
+        }
+    }
+
+    impl std::hash::Hash for Instant {
+        fn hash<H: std::hash::Hasher>(&self, h: &mut H) {
+            self.0.hash(h)
+        }
     }
 
     impl std::ops::Add<Duration> for Instant {
@@ -53,6 +93,7 @@ pub mod time {
 }
 
 pub mod thread {
+    pub use std::thread::*;
     use std::cell::RefCell;
     use std::io;
     use std::num::NonZeroUsize;
@@ -77,6 +118,29 @@ pub mod thread {
         dsim::sleep(d)
     }
 
+    #[allow(deprecated)]
+    pub fn sleep_ms(ms: u32) {
+        dsim::sleep(Duration::from_millis(ms as u64))
+    }
+
+    /// a scheduling point
+    pub fn yield_now() {
+        dsim::yield_point(dsim::Op::Small)
+    }
+
+    /// nobody unparks in this model: a parked task sleeps (an hour of simulated time at most)
+    pub fn park() {
+        dsim::sleep(Duration::from_secs(3600))
+    }
+
+    pub fn park_timeout(d: Duration) {
+        dsim::sleep(d)
+    }
+
+    pub fn panicking() -> bool {
+        std::thread::panicking()
+    }
+
     pub fn available_parallelism() -> io::Result<NonZeroUsize> {
         let n = dsim::with(|w| w.cfg.cores).max(1);
         Ok(NonZeroUsize::new(n).unwrap())
@@ -90,6 +154,9 @@ pub mod thread {
     }
 
     impl<T> JoinHandle<T> {
+        pub fn is_finished(&self) -> bool {
+            dsim::task_done(self.task)
+        }
         pub fn join(self) -> Result<T> {
             match dsim::join_task(self.task) {
                 dsim::TaskEnd::Returned => Ok(self.slot.borrow_mut().take().expect("joined task left no value")),
@@ -111,6 +178,9 @@ pub mod thread {
         }
         pub fn name(mut self, name: String) -> Builder {
             self.name = Some(name);
+            self
+        }
+        pub fn stack_size(self, _size: usize) -> Builder {
             self
         }
         pub fn spawn<F, T>(self, f: F) -> io::Result<JoinHandle<T>>
@@ -139,8 +209,7 @@ pub mod thread {
 }
 
 pub mod sync {
-    pub use std::sync::atomic;
-    pub use std::sync::{Arc, LockResult, PoisonError};
+    pub use std::sync::*;
     use std::cell::UnsafeCell;
     use std::ops::{Deref, DerefMut};
 
@@ -158,6 +227,27 @@ pub mod sync {
         pub fn new(t: T) -> Mutex<T> {
             Mutex { id: dsim::mutex_new(), data: UnsafeCell::new(t) }
         }
+        pub fn into_inner(self) -> LockResult<T> {
+            let poisoned = dsim::mutex_is_poisoned(self.id);
+            let v = self.data.into_inner();
+            if poisoned {
+                Err(PoisonError::new(v))
+            } else {
+                Ok(v)
+            }
+        }
+    }
+
+    impl<T: Default> Default for Mutex<T> {
+        fn default() -> Mutex<T> {
+            Mutex::new(T::default())
+        }
+    }
+
+    impl<T: ?Sized + std::fmt::Debug> std::fmt::Debug for Mutex<T> {
+        fn fmt(&self, f: &mut std::fmt::Formatter<'_>) -> std::fmt::Result {
+            f.debug_struct("Mutex").finish_non_exhaustive()
+        }
     }
 
     impl<T: ?Sized> Mutex<T> {
@@ -168,6 +258,28 @@ pub mod sync {
                 Err(PoisonError::new(g))
             } else {
                 Ok(g)
+            }
+        }
+        pub fn try_lock(&self) -> TryLockResult<MutexGuard<'_, T>> {
+            match dsim::mutex_try_lock(self.id) {
+                None => Err(TryLockError::WouldBlock),
+                Some(true) => Err(TryLockError::Poisoned(PoisonError::new(MutexGuard { m: self }))),
+                Some(false) => Ok(MutexGuard { m: self }),
+            }
+        }
+        pub fn is_poisoned(&self) -> bool {
+            dsim::mutex_is_poisoned(self.id)
+        }
+        pub fn clear_poison(&self) {
+            dsim::mutex_clear_poison(self.id)
+        }
+        pub fn get_mut(&mut self) -> LockResult<&mut T> {
+            let poisoned = dsim::mutex_is_poisoned(self.id);
+            let v = self.data.get_mut();
+            if poisoned {
+                Err(PoisonError::new(v))
+            } else {
+                Ok(v)
             }
         }
     }
@@ -197,6 +309,8 @@ pub mod sync {
 }
 
 pub mod process {
+    pub use std::process::*;
+
     pub fn exit(code: i32) -> ! {
         dsim::proc_exit(code)
     }
@@ -212,7 +326,7 @@ pub mod process {
 }
 
 pub mod env {
-    pub use std::env::VarError;
+    pub use std::env::*;
 
     pub struct Args {
         inner: std::vec::IntoIter<String>,
@@ -251,6 +365,7 @@ pub mod env {
 }
 
 pub mod fs {
+    pub use std::fs::*;
     use std::io::{self, Read, Write};
     use std::path::Path;
 
@@ -351,7 +466,7 @@ pub mod fs {
 }
 
 pub mod net {
-    pub use std::net::{IpAddr, Ipv4Addr, Shutdown, SocketAddr, ToSocketAddrs};
+    pub use std::net::*;
     use std::io;
     use std::time::Duration;
 
